@@ -10,6 +10,7 @@ import (
 	"io"
 	"log"
 	"os"
+	"runtime/debug"
 	"sort"
 	"strconv"
 	"time"
@@ -53,7 +54,7 @@ func main() {
 	func() {
 		defer func() {
 			if rec := recover(); rec != nil {
-				r.Violation("harness-panic", fmt.Sprintf("the harness itself panicked: %v", rec), "")
+				r.Violation("harness-panic", fmt.Sprintf("the harness itself panicked: %v", rec), string(debug.Stack()))
 			}
 		}()
 		f(r)
